@@ -4,7 +4,7 @@ import Rivaas.Spec.Reverse
 /-
 Driver for C12. Case lines:
 
-  <id> P <nActors> { Q <target> <valInt> | F | W | R <r> <routeKind> | H <r> | N <r> | U <r> }*
+  <id> P <nActors> { Q <target> <valInt> | F | W | R <r> <routeKind> | H <r> | N <r> | U <r> | B <r> }*
          <nSched> <actor>*  <nIds> <id>*
     => <nEv> { <vis> <out> }*  <nFinal> <vis>*  <nProbes> { {0|1 <id>} {0|1 <id>} }*
 
@@ -23,6 +23,7 @@ def pKind : P Kind := do
   else if k == "H" then Kind.whereInt <$> nat
   else if k == "N" then Kind.setName <$> nat
   else if k == "U" then Kind.urlFor <$> nat
+  else if k == "B" then Kind.whereBad <$> nat
   else failure
 
 def pVis : P Vis := do
